@@ -615,6 +615,8 @@ impl<H: Hal, T: Transport> VirtIOSound<H, T> {
     }
 
     /// The PCM frame transmission corresponding to the given token has been completed.
+    ///
+    /// Returns an error if the device reported that the transfer failed.
     pub fn pcm_xfer_ok(&mut self, token: u16) -> Result {
         assert!(self.token_buf.contains_key(&token));
         assert!(self.token_rsp.contains_key(&token));
@@ -630,7 +632,11 @@ impl<H: Hal, T: Transport> VirtIOSound<H, T> {
         }
 
         self.token_buf.remove(&token);
-        self.token_rsp.remove(&token);
+        let rsp = self.token_rsp.remove(&token).unwrap();
+        // The device reports the outcome of the transfer in the status it wrote.
+        if rsp.status != CommandCode::SOk.into() {
+            return Err(Error::IoError);
+        }
         Ok(())
     }
 
